@@ -166,7 +166,7 @@ Verdict runHistory(const Case &cs) {
         if (seen.insert(k).second) jobs.push_back({k, [&cs, g, st, in, mode]() {
           Binding *b = newCBinding(); b->create();
           if (defineGrammar(*b, cs.grams[g]) != 0) { b->destroy(); delete b; return std::string("UNDEFINED"); }
-          yaep_verif.rec_limit = 20000;
+          yaep_verif.rec_limit = REC_LIMIT;
           Outcome o = runParse(*b, cs.inputs[in], toConf(st, mode));
           std::string r = o.hook.rec_explosion ? "EXPLOSION" : outcomeKey(o);
           b->destroy(); delete b; return r; }});
@@ -253,7 +253,7 @@ Verdict runHistory(const Case &cs) {
         v.labels.insert("h:null-allocator");
         continue;
       }
-      yaep_verif.rec_limit = 20000;
+      yaep_verif.rec_limit = REC_LIMIT;
       Outcome o = runParse(b, codes, cf);
       v.parses++;
       if (o.hook.rec_explosion) { v.labels.insert("excluded:F27-recovery-explosion"); lastErr[s] = o.rc; continue; }
@@ -401,7 +401,7 @@ std::vector<std::string> transcribe(const Case &cs, Binding *(*mk)(), long *cont
 Verdict runC16(const Case &cs) {
   Verdict v;
   if (cs.grams.empty() || cs.inputs.empty()) { v.st = V_DISCARD; return v; }
-  yaep_verif.rec_limit = 20000;
+  yaep_verif.rec_limit = REC_LIMIT;
   long growC = 0, growX = 0;
   long base = g_lib.live_blocks;
   std::vector<std::string> a = transcribe(cs, newCBinding, &growC);
